@@ -395,6 +395,11 @@ def build_pool(rng):
         ops.append({"k": "moz", "path": path, "pat": pat})
     for m, what, path in MATCHER_QUERIES:
         ops.append({"k": "matcher", "m": m, "what": what, "path": path})
+    have = {(o["f"], o["t"]) for o in ops if o["k"] == "parse" and "name" not in o}
+    for f in range(7):          # every text also as a plain parse (the walk tables need it)
+        for i in range(len(texts[f])):
+            if (f, i) not in have:
+                ops.append({"k": "parse", "f": f, "t": i})
     for i, o in enumerate(ops):
         o["id"] = i
     return texts, ops
@@ -690,6 +695,8 @@ def check_parser_table():
 
 def run_sequence(specs, texts):
     """run the operations in THIS process; per op {res, state}; final re-observation of entries"""
+    import warnings
+    warnings.simplefilter("ignore")      # pkg_resources deprecation noise of getParser's fallback
     proc = Proc()
     out, live = [], []
     try:
@@ -1496,10 +1503,7 @@ def history_round(chk, rng, model, nseq, rnd, t0):
     for o in ops:
         per_kind[o["k"]] = per_kind.get(o["k"], 0) + 1
     weights = [WEIGHT[o["k"]] / per_kind[o["k"]] for o in ops]
-    seqs = []
-    for i in range(nseq):
-        n = 30 if i % 15 == 14 else rng.randint(2, 6)
-        seqs.append(draw_history(rng, ops, weights, n))
+    seqs = []      # shortest sequences first: recorded failures are then minimal
     # targeted: every operation once directly after a state-heavy prefix
     heavy = [o for o in ops if o["k"] in ("parse", "compare")][:: max(1, len(ops) // 12)]
     for o in ops:
@@ -1520,6 +1524,10 @@ def history_round(chk, rng, model, nseq, rnd, t0):
         for a in members:
             for b in members:
                 seqs.append([a, b])
+    # random histories
+    for i in range(nseq):
+        n = 30 if i % 15 == 14 else rng.randint(2, 6)
+        seqs.append(draw_history(rng, ops, weights, n))
     seqs, runs = check_histories(chk, model, texts, seqs, tables, base_by_id, parse_base, intern,
                                  "HISTORY" if rnd == 0 else "HISTORY-round%d" % rnd)
     chk.notes.append("round %d: %d sequences, %d operations in total (%.1fs since start)"
@@ -1539,6 +1547,15 @@ def run(chk, runner_ok):
         chk.known.extend(f for f in PROPOSED_FINDINGS
                          if not any(k["signature"] == f["signature"] for k in chk.known))
         chk.notes.append("VERIF_C18_PROPOSED_FINDINGS=1: the three proposed findings are treated as listed")
+    try:
+        # getParser falls back to pkg_resources when no pattern matches; importing it here once (a
+        # third-party module, no state of the package) spares every forked child the import
+        import warnings
+        with warnings.catch_warnings():
+            warnings.simplefilter("ignore")
+            import pkg_resources  # noqa
+    except Exception:  # noqa
+        pass
     t0 = time.time()
     # ---- the minimal witnesses of the known history dependences (always first) ----
     witnesses(chk)
